@@ -222,40 +222,52 @@ def run_harness(h, crate, root, tier):
     return res
 
 
-def replay(h, res, crate, root):
-    """Run Kani's concrete-playback tests natively (dev profile) against the
-    scratch copy. Returns (reproduced: bool, text)."""
-    tests = res.get("playback") or []
-    if not tests:
-        return False, "no playback test produced"
-    vkfile = os.path.join(crate, "vk", h["mod"] + ".rs")
-    orig = open(vkfile).read()
-    names = []
-    body = ""
-    for i, t in enumerate(tests):
-        m = re.search(r"fn (kani_concrete_playback_\w+)\(", t)
-        if not m:
+def replay_many(items, crate, root):
+    """items: [(h, res)] with res['status'] == 'cex'.  Runs Kani's concrete-playback tests
+    natively (dev profile) against the scratch copy, one cargo run per (module, features).
+    Returns {harness name: (reproduced, text)}."""
+    out_map = {}
+    groups = {}
+    for h, r in items:
+        groups.setdefault((h["mod"], tuple(h.get("features") or ())), []).append((h, r))
+    for (mod, feats), grp in groups.items():
+        vkfile = os.path.join(crate, "vk", mod + ".rs")
+        orig = open(vkfile).read()
+        body = ""
+        names = {}
+        for h, r in grp:
+            mine = []
+            for t in r.get("playback") or []:
+                if "Check for `cover`" in t:
+                    continue
+                m = re.search(r"fn (kani_concrete_playback_\w+)\(", t)
+                if m:
+                    mine.append(m.group(1))
+                    body += "\n" + t + "\n"
+            names[h["name"]] = mine
+        if not body:
+            for h, r in grp:
+                out_map[h["name"]] = (False, "no playback test produced")
             continue
-        names.append(m.group(1))
-        body += "\n" + t + "\n"
-    if not names:
-        return False, "unparsable playback test"
-    open(vkfile, "w").write(orig + body)
-    feat = []
-    if h.get("features"):
-        feat = ["--features", ",".join(h["features"])]
-    repro = False
-    text = ""
-    try:
-        cmd = ["cargo", "kani", "playback", "-Z", "concrete-playback", "--lib"] + feat + \
-              ["--", "kani_concrete_playback", "--test-threads", "1"]
-        rc, out, dt = run(cmd, cwd=crate, timeout=600)
-        text = out[-6000:]
-        # reproduced iff a playback test of this harness failed natively
-        for n in names:
-            if re.search(r"test \S*%s \.\.\. FAILED" % re.escape(n), out) or \
-               re.search(r"^\s+\S*%s$" % re.escape(n), out, flags=re.M):
-                repro = True
-    finally:
-        open(vkfile, "w").write(orig)
-    return repro, body + "\n// ---- native run ----\n// " + text.replace("\n", "\n// ")
+        open(vkfile, "w").write(orig + body)
+        feat = ["--features", ",".join(feats)] if feats else []
+        try:
+            cmd = ["cargo", "kani", "playback", "-Z", "concrete-playback", "--lib"] + feat + \
+                  ["--", "kani_concrete_playback", "--test-threads", "1"]
+            rc, out, dt = run(cmd, cwd=crate, timeout=900)
+        finally:
+            open(vkfile, "w").write(orig)
+        for h, r in grp:
+            repro = False
+            for n in names[h["name"]]:
+                if re.search(r"test \S*%s \.\.\. FAILED" % re.escape(n), out):
+                    repro = True
+            mine_txt = "\n".join(t for t in (r.get("playback") or []) if "Check for `cover`" not in t)
+            panics = "\n".join(l for l in out.splitlines() if "panicked at" in l or "assertion" in l.lower())[:3000]
+            out_map[h["name"]] = (repro, mine_txt + "\n// ---- native run (cargo kani playback) ----\n// "
+                                  + panics.replace("\n", "\n// "))
+    return out_map
+
+
+def replay(h, res, crate, root):
+    return replay_many([(h, res)], crate, root)[h["name"]]
